@@ -423,6 +423,7 @@ def Proc.init : Proc := ⟨false, false, false, false⟩
 inductive POp where
   | start                 -- start(command) / start(program, argc, argv)
   | openp (mask : Nat)    -- open(..., streams)
+  | openFailed (mask : Nat) -- open(..., streams) while pipe() or vfork() fails
   | join
   | kill
   | close (mask : Nat)
@@ -439,6 +440,7 @@ def Proc.step (s : Proc) : POp → Proc × Bool
   | .openp m =>
     if s.running then (s, false)
     else (⟨true, bit m 1, bit m 2, bit m 4⟩, true)
+  | .openFailed _ => (s, false)          -- repaired: the pipes created so far are closed again
   | .join => if !s.running then (s, false) else (Proc.init, true)
   | .kill => if !s.running then (s, false) else (Proc.init, true)
   | .close m =>
